@@ -85,6 +85,13 @@ func runC17(t *verifsim.Tape, cfg engine.Config) *engine.Outcome {
 			r = genRegex(t, 2)
 		}
 		src := marker + r.String()
+		if !bigPool && t.Draw("plain-shape", 6) == 0 {
+			// patterns exactly as a design writes the common ones - a literal, anchored or not, nothing in front of
+			// it - kept distinct from every other run's by a run-unique tail INSIDE the literal
+			lit := strgen.Nstr(t, "abcxyz019_-.", 1, 4) + fmt.Sprintf("%x", t.Sub("marker"))
+			r = strgen.AnchoredLiteral(lit, t.Draw("anch", 2) == 0, t.Draw("anch", 2) == 0)
+			src = r.String()
+		}
 		if t.Draw("nomarker-dup", 8) == 0 && i > 0 {
 			src, r = pats[i-1].src, pats[i-1].rx // two pool slots, one cache entry
 		}
@@ -121,7 +128,14 @@ func runC17(t *verifsim.Tape, cfg engine.Config) *engine.Outcome {
 					}
 				}
 				var v string
-				switch t.Draw("valk", 4) {
+				switch t.Draw("valk", 5) {
+				case 4: // a sample with something in front of it or behind it
+					v = p.rx.Sample(t)
+					if t.Draw("pad-front", 2) == 0 {
+						v = string(pickc(t, rxAlphabet)) + v
+					} else {
+						v += string(pickc(t, rxAlphabet))
+					}
 				case 0, 1:
 					v = p.rx.Sample(t)
 				case 2: // near miss: sample with one character changed / dropped
